@@ -434,7 +434,7 @@ func eddsaCase(n, thr int) harness.Case {
 		what := fmt.Sprintf("eddsa n=%d t=%d", n, thr)
 		c.Exec("[eddsa] " + what)
 		parties := ids(n)
-		shares, errs, caps := runAdapters("eddsa", parties, thr, nil, func(id uint16, a adapter, ctx context.Context) ([]byte, error) { return a.KeyGen(ctx) }, "keygen", 60*time.Second)
+		shares, errs, caps := runAdapters("eddsa", parties, thr, nil, func(id uint16, a adapter, ctx context.Context) ([]byte, error) { return a.KeyGen(ctx) }, "keygen", 900*time.Second)
 		c.Add("executions", 1)
 		for id, e := range errs {
 			if e != nil {
@@ -443,13 +443,22 @@ func eddsaCase(n, thr int) harness.Case {
 			}
 		}
 		// signing among the first t+1 parties and among all
-		for _, signers := range [][]uint16{parties[:thr+1], parties} {
+		sets := [][]uint16{parties[:thr+1], parties}
+		if thr+1 < n {
+			// a signing committee whose members sit at other positions than in the key-generation
+			// committee (the last t+1 parties; the first and the last one)
+			sets = append(sets, parties[n-thr-1:])
+			if thr == 1 && n >= 3 {
+				sets = append(sets, []uint16{parties[0], parties[n-1]})
+			}
+		}
+		for si, signers := range sets {
 			for di, dg := range digestAlphabet {
-				if len(signers) == n && di > 1 {
+				if (len(signers) == n || si >= 2) && di > 1 {
 					continue
 				}
 				dg := dg
-				sigs, serrs, scaps := runAdapters("eddsa", signers, thr, shares, func(id uint16, a adapter, ctx context.Context) ([]byte, error) { return a.Sign(ctx, dg) }, "signing", 60*time.Second)
+				sigs, serrs, scaps := runAdapters("eddsa", signers, thr, shares, func(id uint16, a adapter, ctx context.Context) ([]byte, error) { return a.Sign(ctx, dg) }, "signing", 900*time.Second)
 				c.Add("executions", 1)
 				caps = append(caps, scaps...)
 				pkA := newAdapter("eddsa", signers[0])
@@ -559,7 +568,7 @@ func ecdsaKeygen(n, thr int) (*ecRun, error) {
 		go func() { p.Start() }()
 	}
 	r := &ecRun{saves: map[uint16]eckeygen.LocalPartySaveData{}}
-	deadline := time.After(120 * time.Second)
+	deadline := time.After(1800 * time.Second)
 	for len(r.saves) < n {
 		select {
 		case <-deadline:
@@ -624,7 +633,7 @@ func ecdsaSignDirect(saves map[uint16]eckeygen.LocalPartySaveData, signers []uin
 	}
 	var caps []capMsg
 	done := 0
-	deadline := time.After(120 * time.Second)
+	deadline := time.After(1800 * time.Second)
 	for done < len(signers) {
 		select {
 		case <-deadline:
@@ -699,7 +708,11 @@ func ecdsaCase(n, thr int) harness.Case {
 				continue
 			}
 			dg := dg
-			sigs, serrs, acaps := runAdapters("ecdsa", signers, thr, shares, func(id uint16, a adapter, ctx context.Context) ([]byte, error) { return a.Sign(ctx, dg) }, "signing", 120*time.Second)
+			patience := 1800 * time.Second
+			if len(dg) == 32 && new(big.Int).SetBytes(dg).Cmp(elliptic.P256().Params().N) >= 0 {
+				patience = 20 * time.Second // refused at once by the library; the adapter waits for the deadline
+			}
+			sigs, serrs, acaps := runAdapters("ecdsa", signers, thr, shares, func(id uint16, a adapter, ctx context.Context) ([]byte, error) { return a.Sign(ctx, dg) }, "signing", patience)
 			c.Add("executions", 1)
 			classify(c, "ecdsa", n, thr, acaps)
 			pkA := newAdapter("ecdsa", signers[0])
@@ -714,9 +727,17 @@ func ecdsaCase(n, thr int) harness.Case {
 				c.Violation("pk", "c19-ecdsa-pk", err.Error(), nil)
 				return
 			}
+			// a 32-byte digest that is not below the group order is refused by the library itself
+			// (tss-lib: "hashed message is not valid"); the adapter then reports a time-out. No
+			// signature is returned, which is all C19 asks for such a digest.
+			aboveOrder := len(dg) == 32 && new(big.Int).SetBytes(dg).Cmp(elliptic.P256().Params().N) >= 0
 			for _, id := range signers {
 				c.Add("evaluations", 1)
 				if serrs[id] != nil {
+					if aboveOrder {
+						c.Add("digests_refused_by_the_library", 1)
+						continue
+					}
 					c.Violation("sign", "c19-ecdsa-sign-fails", fmt.Sprintf("%s digest#%d: party %d: %v", what, di, id, serrs[id]), replay{"ecdsa", n, thr, "sign"})
 					continue
 				}
